@@ -331,7 +331,7 @@ func TotalPlan(tier string) *harness.Plan {
 	}
 	seeds := space.SeedPatterns(0)
 	if thorough {
-		seeds = space.SeedPatterns(1)
+		seeds = space.SeedPatternsLate(1, 1)
 	}
 	const blk = 256
 	nStrU := (len(strs) + blk - 1) / blk
